@@ -2,13 +2,14 @@
 //! C14: arbitrary bytes as the reply to one of every operation (first byte selects it) while a
 //! second request is outstanding; its valid reply, arriving afterwards, must still be delivered.
 use libfuzzer_sys::fuzz_target;
-use vcheck::{ops::ReqSpec, props::c14::{feed_reply_raw, Fed}};
+use vcheck::{ops::ReqSpec, props::c14::{feed_reply_raw_ordered, Fed}};
 
 fuzz_target!(|data: &[u8]| {
     let Some((op, bytes)) = data.split_first() else { return };
     let ops = ReqSpec::canonical();
-    let spec = &ops[*op as usize % ops.len()];
-    match feed_reply_raw(spec, bytes) {
+    // bit 7: the second request's valid reply arrives before the bytes (and is parked)
+    let spec = &ops[(*op & 0x7f) as usize % ops.len()];
+    match feed_reply_raw_ordered(spec, bytes, *op & 0x80 != 0) {
         Fed::Returned { .. } => {}
         other => panic!("C14 violation: {other:?}"),
     }
